@@ -6,8 +6,10 @@ CfgOnlyCap1 == {<<1, 2, 1>>}
 CfgSmall == {<<1, 2, 0>>, <<1, 2, 1>>, <<1, 2, 2>>, <<2, 4, 0>>, <<2, 2, 2>>}
 CfgAll   == {<<i, m, cap>> \in {1, 2} \X {2, 4} \X {0, 1, 2} : TRUE}
 (* trace validation: every configuration the harness uses; client goroutines 1..6 call Add as often as the trace says *)
-CfgTrace == (1..3) \X (1..15) \X (0..4)
+CfgTrace == Nat \X Nat \X Nat
 PTrace == <<1000, 1000, 1000, 1000, 1000, 1000>>
+P3   == <<3>>
+CfgOne == {<<1, 2, 0>>}
 P1   == <<1>>
 P2   == <<2>>
 P11  == <<1, 1>>
